@@ -720,7 +720,7 @@ func TestC28_SyncedStateChanges(t *testing.T) {
 				t.Fatalf("%s", vkit.Violation("C28", key, "synced root differs from the root obtained by executing the block"))
 			}
 			if diff := c28content(rb.ClientState, models[bi], pool); diff != "" {
-				if d.label == "swap-for-unchanged" && (strings.Contains(diff, "node not found") || strings.Contains(diff, "missing")) {
+				if strings.HasPrefix(d.label, "swap-for-unchanged") && (strings.Contains(diff, "node not found") || strings.Contains(diff, "missing")) {
 					if st.Known(c28Withheld) {
 						return rb, "accepted-incomplete(known)"
 					}
@@ -955,7 +955,15 @@ func TestC28_SyncedStateChanges(t *testing.T) {
 				}
 				i := rapid.SampledFrom(idx).Draw(t, "i")
 				variant = "withheld-" + c28nodeKind(h.Nodes[i])
-				h.Nodes[i] = rapid.SampledFrom(linkedUnchanged).Draw(t, "unchangedNode")
+				u := rapid.SampledFrom(linkedUnchanged).Draw(t, "unchangedNode").CloneNode()
+				if rapid.Bool().Draw(t, "restampOrigin") {
+					// the sender stamps the old node with this block's round as origin (the origin is part
+					// of what a node's hash covers, so the node then no longer is the one its parent links to)
+					u.SetOrigin(util.Sequence(last.Round))
+					variant += "-origin-restamped"
+					op = "swap-for-unchanged-restamped"
+				}
+				h.Nodes[i] = u
 			case "alter-leaf", "alter-inner", "replace-foreign":
 				expect = c28Either // count, declared root and block hash still match
 				var idx []int
